@@ -146,3 +146,41 @@ package filehandler
 //@   assigns mapof(s)
 //@   ensures has(s, name) && s[name] == count
 //@   ensures forall x string :: x != name ==> has(s, x) == old(has(s, x)) && s[x] == old(s[x])
+
+// AddFilePermission grants exactly the class asked for: the writable set changes only for a write permission,
+// the readable set only for a read permission; the ancestors of the name only become statable. (write => read =>
+// stat is then the cascade of the Is*File functions above.) The walk up the ancestors terminates.
+//@ macro set_same(f) = f.SystemRoot == old(f.SystemRoot) && forall x string :: has(f.Set, x) == old(has(f.Set, x)) && f.Set[x] == old(f.Set[x])
+//@ func runner/ptrace/filehandler.(*FileSets).AddFilePermission props C18
+//@   arith int
+//@   requires s != nil && s.Writable.Set != nil && s.Readable.Set != nil && s.Statable.Set != nil
+//@   requires s.Writable.Set != s.Readable.Set && s.Writable.Set != s.Statable.Set && s.Readable.Set != s.Statable.Set
+//@   assigns s.Writable.SystemRoot, mapof(s.Writable.Set), s.Readable.SystemRoot, mapof(s.Readable.Set), s.Statable.SystemRoot, mapof(s.Statable.Set)
+//@   ensures int(mode) != 1 ==> set_same(s.Writable)
+//@   ensures int(mode) != 2 ==> set_same(s.Readable)
+//@   loop 0: invariant s == old(s) && len(name) >= 0 && s.Writable.Set == old(s.Writable.Set) && s.Readable.Set == old(s.Readable.Set) && s.Statable.Set == old(s.Statable.Set)
+//@   loop 0: invariant (int(mode) != 1 ==> set_same(s.Writable)) && (int(mode) != 2 ==> set_same(s.Readable))
+//@   loop 0: decreases len(name)
+
+// constructors: four separate, empty maps (what AddFilePermission's precondition asks for)
+//@ func runner/ptrace/filehandler.NewFileSet props C18
+//@   arith int
+//@   assigns nothing
+//@   ensures result.Set != nil && fresh(result.Set) && !result.SystemRoot && forall x string :: !has(result.Set, x)
+//@ func runner/ptrace/filehandler.NewFileSets props C18
+//@   arith int
+//@   assigns nothing
+//@   ensures result != nil && fresh(result) && result.Writable.Set != nil && result.Readable.Set != nil && result.Statable.Set != nil && result.SoftBan.Set != nil
+//@   ensures result.Writable.Set != result.Readable.Set && result.Writable.Set != result.Statable.Set && result.Readable.Set != result.Statable.Set && result.SoftBan.Set != result.Writable.Set
+//@   ensures !result.Writable.SystemRoot && !result.Readable.SystemRoot && !result.Statable.SystemRoot && !result.SoftBan.SystemRoot
+//@ func runner/ptrace/filehandler.GetExtraSet props C18
+//@   arith int
+//@   requires len(extra) < 1073741824 && len(raw) < 1073741824
+//@   assigns nothing
+//@   ensures len(result) == len(raw) + len(extra)
+//@   loop 0: invariant -1 <= rangeindex && rangeindex < len(extra) && len(rt) == len(raw) + rangeindex + 1 && cap(rt) >= len(raw) + len(extra) && (fresh(rt) || cap(rt) == 0)
+//@ func runner/ptrace/filehandler.(SyscallCounter).AddRange props C18
+//@   arith int
+//@   requires s != nil
+//@   assigns mapof(s)
+//@   loop 0: invariant s == old(s) && m == old(m)
